@@ -100,74 +100,8 @@ func checkC14(p *Prog, r *Report) {
 			}
 		})
 	}
-	// emissions of ServerOptions with their guards
-	type emission struct {
-		token string
-		in    ssa.Instruction
-		guard []Fact
-	}
-	var ems []emission
-	serialised := map[string]bool{}
-	for _, b := range so.Blocks {
-		for _, in := range b.Instrs {
-			tok := ""
-			switch x := in.(type) {
-			case *ssa.BinOp: // argstr += "x"
-				if x.Op == token.ADD {
-					if s, ok := constStr(x.Y); ok && len(s) == 1 {
-						tok = "-" + s
-					}
-				}
-			case *ssa.Call: // append(sargv, "--x")
-				if bi, ok := x.Common().Value.(*ssa.Builtin); ok && bi.Name() == "append" {
-					for _, e := range variadicElems(x.Common().Args[1]) {
-						if s, ok := constStr(e); ok {
-							tok = s
-						}
-					}
-				}
-			}
-			if tok == "" {
-				continue
-			}
-			e := emission{token: tok, in: in}
-			for _, f := range FactsAt(in) {
-				cond := f.Cond
-				// `o.X() != 0` / `o.X() == 0` on an int accessor counts as the accessor atom
-				if bo, ok := cond.(*ssa.BinOp); ok && (bo.Op == token.NEQ || bo.Op == token.EQL) {
-					if k, isK := constInt(bo.Y); isK && k == 0 {
-						if _, isCall := bo.X.(*ssa.Call); isCall {
-							cond = bo.X
-							if bo.Op == token.EQL {
-								f.Val = !f.Val
-							}
-						}
-					}
-				}
-				recognised := false
-				if c, ok := cond.(*ssa.Call); ok {
-					if fo := calleeOf(c); fo != nil {
-						if rp, rt := recvTypeName(fo); rp == pkgOpts && rt == "Options" {
-							f.Cond = c
-							e.guard = append(e.guard, f)
-							serialised[fo.Name()] = true
-							recognised = true
-						}
-					}
-				}
-				if !recognised {
-					// the only other condition in ServerOptions is `argstr != "-"`
-					if bo, ok := cond.(*ssa.BinOp); ok {
-						if s, isS := constStr(bo.Y); isS && s == "-" {
-							continue
-						}
-					}
-					r.Unk("C14/ROUNDTRIP", "emission of "+tok+" under an unrecognised condition", p.Pos(instrPos(in)), "ServerOptions emits this token under a condition that is not a plain option accessor; the round-trip table cannot be composed")
-				}
-			}
-			ems = append(ems, e)
-		}
-	}
+	// emissions of ServerOptions (and of helpers it calls) with their guards
+	ems, serialised := collectEmissions(p, r, so)
 	var names []string
 	for n := range consulted {
 		names = append(names, n)
@@ -640,4 +574,99 @@ func checkStreamSymmetry(p *Prog, r *Report) {
 		r.Cond(ok, rule, "filter list on push: daemon reads iff --delete; client writes iff it forwards --delete", "-",
 			fmt.Sprintf("daemon reads under DeleteMode=%v, client forwards --delete=%v, client sender writes list under DeleteMode=%v", readsUnderDelete, forwardsDelete, clientSenderWrites))
 	}
+}
+
+type emission struct {
+	token string
+	in    ssa.Instruction
+	guard []Fact
+}
+
+// collectEmissions walks ServerOptions and, in call order, the helpers of
+// package rsyncopts it calls directly (e.g. an extracted function that builds
+// the single-letter option string): every appended token with the option
+// accessors that guard it (call-site guards of a helper apply to all of its
+// emissions).
+func collectEmissions(p *Prog, r *Report, so *ssa.Function) ([]emission, map[string]bool) {
+	var ems []emission
+	serialised := map[string]bool{}
+	var visit func(fn *ssa.Function, ctx []Fact, depth int)
+	visit = func(fn *ssa.Function, ctx []Fact, depth int) {
+		// blocks in dominator pre-order approximate source order for straight-line option code
+		for _, b := range fn.DomPreorder() {
+			for _, in := range b.Instrs {
+				tok := ""
+				switch x := in.(type) {
+				case *ssa.BinOp: // argstr += "x"
+					if x.Op == token.ADD {
+						if s, ok := constStr(x.Y); ok && len(s) == 1 {
+							tok = "-" + s
+						}
+					}
+				case *ssa.Call:
+					if bi, ok := x.Common().Value.(*ssa.Builtin); ok && bi.Name() == "append" {
+						for _, e := range variadicElems(x.Common().Args[1]) {
+							if s, ok := constStr(e); ok {
+								tok = s
+							}
+						}
+					} else if callee := x.Common().StaticCallee(); callee != nil && depth < 2 && callee.Blocks != nil && pkgPathOfFunc(callee) == pkgOpts && accessorField(callee) == nil && callee != fn {
+						sub := append(append([]Fact{}, ctx...), recognisedGuards(p, r, in, "", serialised)...)
+						visit(callee, sub, depth+1)
+					}
+				}
+				if tok == "" {
+					continue
+				}
+				e := emission{token: tok, in: in}
+				e.guard = append(append([]Fact{}, ctx...), recognisedGuards(p, r, in, tok, serialised)...)
+				ems = append(ems, e)
+			}
+		}
+	}
+	visit(so, nil, 0)
+	return ems, serialised
+}
+
+// recognisedGuards: the branch facts at `in` that are option accessors
+// (directly, or compared with 0); anything else except `argstr != "-"` makes
+// the round-trip undecidable and is reported.
+func recognisedGuards(p *Prog, r *Report, in ssa.Instruction, tok string, serialised map[string]bool) []Fact {
+	var out []Fact
+	for _, f := range FactsAt(in) {
+		cond := f.Cond
+		if bo, ok := cond.(*ssa.BinOp); ok && (bo.Op == token.NEQ || bo.Op == token.EQL) {
+			if k, isK := constInt(bo.Y); isK && k == 0 {
+				if _, isCall := bo.X.(*ssa.Call); isCall {
+					cond = bo.X
+					if bo.Op == token.EQL {
+						f.Val = !f.Val
+					}
+				}
+			}
+		}
+		recognised := false
+		if c, ok := cond.(*ssa.Call); ok {
+			if fo := calleeOf(c); fo != nil {
+				if rp, rt := recvTypeName(fo); rp == pkgOpts && rt == "Options" {
+					f.Cond = c
+					out = append(out, f)
+					serialised[fo.Name()] = true
+					recognised = true
+				}
+			}
+		}
+		if !recognised {
+			if bo, ok := cond.(*ssa.BinOp); ok {
+				if s, isS := constStr(bo.Y); isS && s == "-" {
+					continue
+				}
+				if s, isS := constStr(bo.X); isS && s == "-" {
+					continue
+				}
+			}
+			r.Unk("C14/ROUNDTRIP", "emission of "+tok+" under an unrecognised condition", p.Pos(instrPos(in)), "ServerOptions emits under a condition that is not a plain option accessor; the round-trip table cannot be composed")
+		}
+	}
+	return out
 }
